@@ -4,6 +4,7 @@ import (
 	"context"
 	"fmt"
 	"net"
+	"strings"
 	"sync"
 	"sync/atomic"
 	"time"
@@ -25,22 +26,30 @@ type CtObs struct {
 	Total      float64 `json:"total"`       // listener/dialer: total counter
 	MaxPerConn int     `json:"max_per_conn"`
 	MinPerConn int     `json:"min_per_conn"`
+	Pre        bool    `json:"pre"`  // a layer below the wrapper closed the connection before the first Close
+	Note       string  `json:"note"` // which history
 }
 
 // Coq renders the observation as G12.Check.ctobs.
 func (c CtObs) Coq() string {
 	kind := map[string]int{"builder": 0, "listener": 1, "dialer": 2}[c.Kind]
-	return fmt.Sprintf("(mkct %d %v %d %d %d %d (%d)%%Z %d %d %d)", kind, c.Track, c.Closers, c.Conns, c.OnClose, c.UnderClose,
-		int64(c.Active), int64(c.Total), c.MinPerConn, c.MaxPerConn)
+	return fmt.Sprintf("(mkct %d %v %d %d %d %d (%d)%%Z %d %d %d %v)", kind, c.Track, c.Closers, c.Conns, c.OnClose, c.UnderClose,
+		int64(c.Active), int64(c.Total), c.MinPerConn, c.MaxPerConn, c.Pre)
 }
 
 type countConn struct {
 	net.Conn
 	closes *atomic.Int64
+	closed *atomic.Bool
 }
 
+// Close counts the call; like a TCP connection it reports net.ErrClosed when it has been closed before
+// (by an earlier Close, or "from below": see MarkClosed).
 func (c *countConn) Close() error {
 	c.closes.Add(1)
+	if c.closed != nil && c.closed.Swap(true) {
+		return net.ErrClosed
+	}
 	return c.Conn.Close()
 }
 
@@ -73,7 +82,7 @@ func RunConntrack(tier string, seed uint64) []CtObs {
 			for r := 0; r < reps; r++ {
 				a, b := net.Pipe()
 				var on atomic.Int64
-				wc := conntrack.Builder{TrackTraffic: track, OnClose: func() { on.Add(1) }}.Build(&countConn{Conn: a, closes: &under})
+				wc := conntrack.Builder{TrackTraffic: track, OnClose: func() { on.Add(1) }}.Build(&countConn{Conn: a, closes: &under, closed: new(atomic.Bool)})
 				closeConcurrently(wc, n)
 				b.Close()
 				k := int(on.Load())
@@ -88,6 +97,89 @@ func RunConntrack(tier string, seed uint64) []CtObs {
 			o.UnderClose = int(under.Load())
 			out = append(out, o)
 		}
+	}
+	// the connection is closed by a layer BELOW the wrapper before anybody calls the wrapper's Close
+	for _, track := range []bool{false, true} {
+		for _, n := range []int{1, 2, 16} {
+			o := CtObs{Kind: "builder", Track: track, Closers: n, Conns: reps, MinPerConn: 1 << 30, Pre: true, Note: "underlying closed first"}
+			var under atomic.Int64
+			for r := 0; r < reps; r++ {
+				a, b := net.Pipe()
+				var on atomic.Int64
+				cl := new(atomic.Bool)
+				wc := conntrack.Builder{TrackTraffic: track, OnClose: func() { on.Add(1) }}.Build(&closedConn{countConn{Conn: a, closes: &under, closed: cl}})
+				a.Close() // the lower layer closes on its own ...
+				cl.Store(true) // ... so every Close from above reports net.ErrClosed
+				closeConcurrently(wc, n)
+				b.Close()
+				k := int(on.Load())
+				o.OnClose += k
+				if k > o.MaxPerConn {
+					o.MaxPerConn = k
+				}
+				if k < o.MinPerConn {
+					o.MinPerConn = k
+				}
+			}
+			o.UnderClose = int(under.Load())
+			out = append(out, o)
+		}
+	}
+	// real Listener with the PROXY protocol: the client never sends the header, the header reader times out and closes the
+	// TCP connection below the conntrack wrapper; then the accepted connection is closed
+	for _, n := range []int{1, 2} {
+		k := 4
+		reg := prometheus.NewRegistry()
+		lc := *forwarder.DefaultListenerConfig("127.0.0.1:0")
+		lc.ProxyProtocolConfig = &forwarder.ProxyProtocolConfig{ReadHeaderTimeout: 60 * time.Millisecond}
+		l := &forwarder.Listener{ListenerConfig: lc, PromConfig: forwarder.PromConfig{PromNamespace: "vf", PromRegistry: reg}}
+		o := CtObs{Kind: "listener", Closers: n, Conns: k, MinPerConn: 1, MaxPerConn: 1, Pre: true, Note: "proxy-protocol header timeout"}
+		if err := l.Listen(); err != nil {
+			o.Active = -999
+			out = append(out, o)
+			continue
+		}
+		var clients []net.Conn
+		acc := make(chan net.Conn, k)
+		go func() {
+			for i := 0; i < k; i++ {
+				ac, err := l.Accept()
+				if err != nil {
+					acc <- nil
+					continue
+				}
+				acc <- ac
+			}
+		}()
+		for i := 0; i < k; i++ {
+			cc, err := net.DialTimeout("tcp", l.Addr().String(), time.Second)
+			if err == nil {
+				clients = append(clients, cc)
+			}
+		}
+		for i := 0; i < k; i++ {
+			var ac net.Conn
+			select {
+			case ac = <-acc:
+			case <-time.After(3 * time.Second):
+			}
+			if ac == nil {
+				continue
+			}
+			buf := make([]byte, 16)
+			ac.SetReadDeadline(time.Now().Add(2 * time.Second))
+			ac.Read(buf) // fails after the header timeout; the header reader has closed the socket
+			closeConcurrently(ac, n)
+		}
+		for _, cc := range clients {
+			cc.Close()
+		}
+		l.Close()
+		m := gatherReg(reg)
+		o.Active = m.AbsSum("vf_listener_cx_active")
+		o.Total = m.Sum("vf_listener_cx_total")
+		o.OnClose = int(o.Total - m.Sum("vf_listener_cx_active"))
+		out = append(out, o)
 	}
 	// real Listener: accept k connections, close each n-way concurrently, gather the gauges
 	for _, track := range []bool{false, true} {
@@ -125,9 +217,9 @@ func RunConntrack(tier string, seed uint64) []CtObs {
 			}
 			l.Close()
 			m := gatherReg(reg)
-			o.Active = m.Sum("vf_listener_cx_active")
+			o.Active = m.AbsSum("vf_listener_cx_active")
 			o.Total = m.Sum("vf_listener_cx_total")
-			o.OnClose = int(o.Total - o.Active)
+			o.OnClose = int(o.Total - m.Sum("vf_listener_cx_active"))
 			out = append(out, o)
 		}
 	}
@@ -157,13 +249,55 @@ func RunConntrack(tier string, seed uint64) []CtObs {
 		}
 		p.Close()
 		m := gatherReg(reg)
-		o.Active = m.Sum("vf_dialer_cx_active")
+		o.Active = m.AbsSum("vf_dialer_cx_active")
 		o.Total = m.Sum("vf_dialer_cx_total")
-		o.OnClose = int(o.Total - o.Active)
+		o.OnClose = int(o.Total - m.Sum("vf_dialer_cx_active"))
+		out = append(out, o)
+	}
+	// real Dialer with a redirect (--connect-to): the connection is requested for one host and dialled to another;
+	// every label series of the active gauge must return to zero, not just their sum
+	for _, n := range []int{1, 2} {
+		k := 6
+		reg := prometheus.NewRegistry()
+		p, err := NewPeer(func(c net.Conn, i int) { Echo(c) })
+		o := CtObs{Kind: "dialer", Closers: n, Conns: k, MinPerConn: 1, MaxPerConn: 1, Note: "dial redirected to another host"}
+		if err != nil {
+			o.Active = -999
+			out = append(out, o)
+			continue
+		}
+		dc := forwarder.DefaultDialConfig()
+		dc.PromRegistry, dc.PromNamespace = reg, "vf"
+		target := p.Addr
+		dc.RedirectFunc = func(network, address string) (string, string) {
+			if strings.HasPrefix(address, "requested.invalid:") {
+				return network, target
+			}
+			return network, address
+		}
+		d := forwarder.NewDialer(dc)
+		var conns []net.Conn
+		for i := 0; i < k; i++ {
+			c, err := d.DialContext(context.Background(), "tcp", "requested.invalid:80")
+			if err == nil {
+				conns = append(conns, c)
+			}
+		}
+		for _, c := range conns {
+			closeConcurrently(c, n)
+		}
+		p.Close()
+		m := gatherReg(reg)
+		o.Active = m.AbsSum("vf_dialer_cx_active")
+		o.Total = m.Sum("vf_dialer_cx_total")
+		o.OnClose = int(o.Total - m.AbsSum("vf_dialer_cx_active"))
 		out = append(out, o)
 	}
 	return out
 }
+
+// closedConn lets the test close the wrapped connection "from below" while still counting the wrapper's Close calls.
+type closedConn struct{ countConn }
 
 func gatherReg(reg *prometheus.Registry) Metrics {
 	r := &Rig{Reg: reg}
